@@ -198,6 +198,91 @@ struct PT<smooth::Bundle<Gs...>>
   }
 };
 
+// ------------------------------------------------------------------ from-parts constructors
+// G(part_1, ..., part_m) constructed in place at p; the parts are the sub-part views of s ("view": Map / const-Map /
+// views into a value object) or value objects of the part types holding the same coefficients ("plain").
+// Only the constructors documented as plain copies of their parts (not: from quaternion / angle / complex / transform).
+template<typename G>
+struct Ctor;
+template<typename T>
+struct Ctor<smooth::SE2<T>>
+{
+  template<typename V>
+  static void make(void * p, V & s, bool plain)
+  {
+    using G = smooth::SE2<T>;
+    if (plain) {
+      const smooth::SO2<T> a(s.so2());
+      const Eigen::Matrix<T, 2, 1> b = s.r2();
+      new (p) G(a, b);
+    } else {
+      new (p) G(s.so2(), s.r2());
+    }
+  }
+};
+template<typename T>
+struct Ctor<smooth::SE3<T>>
+{
+  template<typename V>
+  static void make(void * p, V & s, bool plain)
+  {
+    using G = smooth::SE3<T>;
+    if (plain) {
+      const smooth::SO3<T> a(s.so3());
+      const Eigen::Matrix<T, 3, 1> b = s.r3();
+      new (p) G(a, b);
+    } else {
+      new (p) G(s.so3(), s.r3());
+    }
+  }
+};
+template<typename T>
+struct Ctor<smooth::Galilei<T>>
+{
+  template<typename V>
+  static void make(void * p, V & s, bool plain)
+  {
+    using G = smooth::Galilei<T>;
+    if (plain) {
+      const smooth::SO3<T> a(s.so3());
+      const Eigen::Matrix<T, 3, 1> v = s.r3_v(), x = s.r3_p();
+      new (p) G(a, v, x, static_cast<double>(s.r1_t().x()));
+    } else {
+      new (p) G(s.so3(), s.r3_v(), s.r3_p(), static_cast<double>(s.r1_t().x()));
+    }
+  }
+};
+template<typename T, int K>
+struct Ctor<smooth::SE_K_3<T, K>>
+{
+  template<typename V>
+  static void make(void * p, V & s, bool plain)
+  {
+    using G = smooth::SE_K_3<T, K>;
+    [&]<int... Is>(std::integer_sequence<int, Is...>) {
+      if (plain) {
+        const smooth::SO3<T> a(s.so3());
+        new (p) G(a, Eigen::Matrix<T, 3, 1>(s.template r3<Is>())...);
+      } else {
+        new (p) G(s.so3(), s.template r3<Is>()...);
+      }
+    }(std::make_integer_sequence<int, K>{});
+  }
+};
+template<typename... Gs>
+struct Ctor<smooth::Bundle<Gs...>>
+{
+  template<typename V>
+  static void make(void * p, V & s, bool plain)
+  {
+    using G = smooth::Bundle<Gs...>;
+    [&]<std::size_t... Is>(std::index_sequence<Is...>) {
+      if (plain) new (p) G(typename G::template PartType<Is>(s.template part<Is>())...);
+      else new (p) G(s.template part<Is>()...);
+    }(std::make_index_sequence<sizeof...(Gs)>{});
+  }
+};
+
 template<typename SV>
 concept LieView = requires(const SV & s) {
   s.coeffs();
@@ -355,7 +440,11 @@ struct Machine
       }
     } else {
       for (const char * v : {"P0", "P3", "V0", "V1"}) put(pos[v], rnd());
-      if (mode == 1) put(pos["P0"], G::Identity());
+      if (mode == 1) {
+        put(pos["P0"], G::Identity());
+        for (int i = 0; i < R; ++i) mem[pos["P3"] + i] *= static_cast<S>(1.0 + 1e-9);   // drifted: no longer unit norm
+        for (int i = 0; i < R; ++i) mem[pos["V1"] + i] *= S(-1);                        // q_w < 0 (non-canonical sign)
+      }
       if (mode == 2 && pos.count("P2")) put(pos["P2"], rnd());   // valid element in the overlapping view
     }
   }
@@ -553,6 +642,19 @@ struct Machine
       guard_on(ok);
       with_src(st.s, [&](auto & s) { new (mem + st.d.p) G(s); });
       guard_off();
+    } else if (op == "partsctor") {
+      if constexpr (PT<G>::N > 0) {
+        const bool plain = st.x == "plain";
+        {
+          const G vb = value_from(P + st.s.p);
+          alignas(G) unsigned char tmp[sizeof(G)];
+          Ctor<G>::make(tmp, vb, plain);
+          ref = cells_of(*std::launder(reinterpret_cast<G *>(tmp)));
+        }
+        guard_on(ok);
+        with_src(st.s, [&](auto & s) { Ctor<G>::make(mem + st.d.p, s, plain); });
+        guard_off();
+      }
     } else if (op == "mul") {
       // a *= b ; when both name the same region (x *= x, or two views over one region) the reference still uses
       // two distinct value objects with the pre-call coefficients
